@@ -114,6 +114,8 @@ impl PkeSealingVersion for V1 {
         mac.update(b"\x01k1.seal.");
         mac.update(r.as_bytes());
         let (ek, n) = mac.finalize_reset().into_bytes().split();
+        #[cfg(paseto_verif)]
+        let n = generic_array::GenericArray::from(paseto_core::verif::counter_override(n.into()));
 
         mac.update(b"\x02k1.seal.");
         mac.update(r.as_bytes());
@@ -183,6 +185,8 @@ impl PkeUnsealingVersion for V1 {
         mac.update(b"\x01k1.seal.");
         mac.update(r.as_bytes());
         let (ek, n) = mac.finalize().into_bytes().split();
+        #[cfg(paseto_verif)]
+        let n = generic_array::GenericArray::from(paseto_core::verif::counter_override(n.into()));
 
         ctr::Ctr64BE::<aes::Aes256>::new(&ek, &n).apply_keystream(edk);
 
